@@ -320,9 +320,10 @@ sgsrfs(trans_t trans, SuperMatrix *A, SuperMatrix *L, SuperMatrix *U,
 		if (rwork[i] > safe2) {
 		    s = SUPERLU_MAX( s, fabs(work[i]) / rwork[i] );
 		} else if ( rwork[i] != 0.0 ) {
-                    /* Adding SAFE1 to the numerator guards against
-                       spuriously zero residuals (underflow). */
-		    s = SUPERLU_MAX( s, (safe1 + fabs(work[i])) / rwork[i] );
+                    /* Adding SAFE1 to the numerator and the denominator guards
+                       against spuriously zero residuals (underflow) and keeps
+                       the quotient at most one, as in LAPACK's xGERFS. */
+		    s = SUPERLU_MAX( s, (safe1 + fabs(work[i])) / (rwork[i] + safe1) );
                 }
                 /* If rwork[i] is exactly 0.0, then we know the true 
                    residual also must be exactly 0.0. */
